@@ -290,3 +290,193 @@ func ZZ_C05_tree2() {
 	zz.Assert(err == nil && rv.Kind() == reflect.Int64, "C05.tree2/kind")
 	zz.Assert(rv.Int() == f(op2, f(op1, x, y), z), "C05.tree2/value")
 }
+
+// ---- mixed-class trees and the assignment shorthands
+
+// zzNum: a value of the numeric tower with both readings.
+type zzNum struct {
+	isInt  bool
+	isBool bool
+	i      int64
+	f      float64
+	b      bool
+}
+
+func (n zzNum) asFloat() float64 {
+	if n.isInt {
+		return float64(n.i)
+	}
+	return n.f
+}
+
+// zzTower: the statement's reading of one operator on two numbers.  ok is
+// false where the statement leaves the result open (bit operators on floats)
+// or makes it an error (% by zero).
+func zzTower(op string, a, b zzNum) (r zzNum, ok bool, isErr bool) {
+	both := a.isInt && b.isInt
+	switch op {
+	case "+", "-", "*":
+		if both {
+			switch op {
+			case "+":
+				return zzNum{isInt: true, i: a.i + b.i}, true, false
+			case "-":
+				return zzNum{isInt: true, i: a.i - b.i}, true, false
+			}
+			return zzNum{isInt: true, i: a.i * b.i}, true, false
+		}
+		x, y := a.asFloat(), b.asFloat()
+		switch op {
+		case "+":
+			return zzNum{f: x + y}, true, false
+		case "-":
+			return zzNum{f: x - y}, true, false
+		}
+		return zzNum{f: x * y}, true, false
+	case "/":
+		return zzNum{f: a.asFloat() / b.asFloat()}, true, false
+	case "%", "&", "|", "<<", ">>":
+		if !both {
+			return zzNum{}, false, false
+		}
+		switch op {
+		case "%":
+			if b.i == 0 {
+				return zzNum{}, true, true
+			}
+			return zzNum{isInt: true, i: a.i % b.i}, true, false
+		case "&":
+			return zzNum{isInt: true, i: a.i & b.i}, true, false
+		case "|":
+			return zzNum{isInt: true, i: a.i | b.i}, true, false
+		case "<<":
+			return zzNum{isInt: true, i: a.i << uint64(b.i)}, true, false
+		}
+		return zzNum{isInt: true, i: a.i >> uint64(b.i)}, true, false
+	case "<", "<=", ">", ">=":
+		var res bool
+		if both {
+			switch op {
+			case "<":
+				res = a.i < b.i
+			case "<=":
+				res = a.i <= b.i
+			case ">":
+				res = a.i > b.i
+			default:
+				res = a.i >= b.i
+			}
+		} else {
+			x, y := a.asFloat(), b.asFloat()
+			switch op {
+			case "<":
+				res = x < y
+			case "<=":
+				res = x <= y
+			case ">":
+				res = x > y
+			default:
+				res = x >= y
+			}
+		}
+		return zzNum{isBool: true, b: res}, true, false
+	}
+	return zzNum{}, false, false
+}
+
+func zzNumOf(c int) (interface{}, zzNum) {
+	v, isInt, i, f := zzNumOperand(c)
+	return v, zzNum{isInt: isInt, i: i, f: f}
+}
+
+func zzNumMatches(rv reflect.Value, want zzNum) bool {
+	if !rv.IsValid() {
+		return false
+	}
+	switch {
+	case want.isBool:
+		return rv.Kind() == reflect.Bool && rv.Bool() == want.b
+	case want.isInt:
+		return rv.Kind() == reflect.Int64 && rv.Int() == want.i
+	}
+	return rv.Kind() == reflect.Float64 && zzSameFloat(rv.Float(), want.f)
+}
+
+// ZZ_C05_tree2_mixed: (x op1 y) op2 z and x op2 (y op1 z) over every mix of
+// int64 and float64 leaves: an intermediate result is an operand like any
+// other, whatever its class.
+func ZZ_C05_tree2_mixed() {
+	inner := []string{"+", "-", "*", "/", "%", "&", "<<"}
+	outer := []string{"+", "-", "*", "/", "|", ">>", "<", ">="}
+	op1 := inner[zz.Choose(len(inner))]
+	op2 := outer[zz.Choose(len(outer))]
+	xv, x := zzNumOf(zz.Choose(2))
+	yv, y := zzNumOf(zz.Choose(2))
+	zv, z := zzNumOf(zz.Choose(2))
+	left := zz.Choose(2) == 0
+	var expr ast.Expr
+	var mid, want zzNum
+	var ok1, ok2, e1, e2 bool
+	if left {
+		expr = zzBinOp(op2, zzBinOp(op1, zzLit(xv), zzLit(yv)), zzLit(zv))
+		mid, ok1, e1 = zzTower(op1, x, y)
+		if ok1 && !e1 {
+			want, ok2, e2 = zzTower(op2, mid, z)
+		}
+	} else {
+		expr = zzBinOp(op2, zzLit(xv), zzBinOp(op1, zzLit(yv), zzLit(zv)))
+		mid, ok1, e1 = zzTower(op1, y, z)
+		if ok1 && !e1 {
+			want, ok2, e2 = zzTower(op2, x, mid)
+		}
+	}
+	if !ok1 {
+		return
+	}
+	rv, err := zzEval(env.NewEnv(), expr)
+	id := "C05.tree2-mixed/" + op1 + "," + op2
+	if e1 {
+		zz.Assert(err != nil, id+"/inner-error-propagates")
+		return
+	}
+	if !ok2 {
+		return
+	}
+	if e2 {
+		zz.Assert(err != nil, id+"/outer-error")
+		return
+	}
+	zz.Assert(err == nil, id+"/no-error")
+	zz.Assert(zzNumMatches(rv, want), id+"/value")
+}
+
+// ZZ_C05_shorthand: `a op= b`, `a++`, `a--` parsed from source text stand
+// for `a = a op b` with the operator the text names.
+func ZZ_C05_shorthand() {
+	forms := []struct{ src, op string }{
+		{"a += b", "+"}, {"a -= b", "-"}, {"a *= b", "*"}, {"a /= b", "/"}, {"a &= b", "&"}, {"a |= b", "|"},
+		{"a++", "+"}, {"a--", "-"},
+	}
+	f := forms[zz.Choose(len(forms))]
+	av, a := zzNumOf(zz.Choose(2))
+	bv, b := zzNumOf(zz.Choose(2))
+	if f.src == "a++" || f.src == "a--" {
+		bv, b = int64(1), zzNum{isInt: true, i: 1}
+	}
+	want, ok, isErr := zzTower(f.op, a, b)
+	if !ok || isErr {
+		return
+	}
+	e := env.NewEnv()
+	e.Define("a", av)
+	e.Define("b", bv)
+	rv, err := Execute(e, nil, f.src)
+	id := "C05.shorthand/" + f.src
+	zz.Assert(err == nil, id+"/no-error")
+	if err != nil {
+		return
+	}
+	zz.Assert(zzNumMatches(reflect.ValueOf(rv), want), id+"/result")
+	got, gerr := e.GetValue("a")
+	zz.Assert(gerr == nil && zzNumMatches(got, want), id+"/stored")
+}
